@@ -147,6 +147,7 @@ class Run:
         self.init = {k: D(v) for k, v in sc["init"].items()}
         self.opening_debt = {k: -v for k, v in self.init.items() if v < 0}
         self.last_fees: Dict[str, Dict[str, D]] = {}
+        self.fee_prec: Dict[str, Tuple[D, int]] = {}
         self._viol_count: collections.Counter = collections.Counter()
 
     # ------------------------------------------------------------------------------------
@@ -1220,6 +1221,13 @@ class Run:
     def check_fees(self, oid, m, o) -> None:
         b, qs = m["pair"].split("/")
         qp = self.pair_prec(m["pair"])[1]
+        # the precision in force when the traded amount last changed (a symbol's precision may be refined mid-run)
+        rec = self.fee_prec.get(oid)
+        if rec is None or rec[0] != o.quote_amount_filled:
+            rec = self.fee_prec[oid] = (o.quote_amount_filled, qp)
+        if rec[1] != qp:
+            self.stats["fee_checks_at_earlier_precision"] += 1
+        qp = rec[1]
         self.stats["fee_checks"] += 1
         if self.fee and o.quote_amount_filled > 0:
             f = q(max(o.quote_amount_filled * self.fee[0] / 100, self.fee[1]), qp, decimal.ROUND_UP)
